@@ -485,7 +485,7 @@ def dict_get(E, d, k, missing):
         return missing()
     if _keyconst(k):
         b = z3.Bool('has_%s[%r]' % (d.base, k.v))
-        if E.spec_mode and getattr(E, 'spec_assume_defined', False):
+        if getattr(E, 'spec_lenient', False) and getattr(E, 'spec_assume_defined', False):
             # re-assuming a clause that was just evaluated (and checked) on the state before a havoc:
             # the key was present there, so it is present in the abstracted state as well
             E.assume(b)
@@ -576,8 +576,9 @@ def getitem(E, obj, idx):
             i = norm_index(E, idx, n)
             return E.list_get(h, i)
         if isinstance(h, HDict):
-            if E.spec_mode:
-                # inside a clause a missing key is an undefined value (no exception, nothing provable about it)
+            if getattr(E, 'spec_lenient', False):
+                # a subscript written in a clause itself: a missing key is an undefined value (no exception,
+                # nothing provable about it); code called from a clause keeps Python's KeyError
                 return dict_get(E, h, idx, lambda: E.fresh_opaque('undefined'))
             return dict_get(E, h, idx, lambda: _raise('KeyError', idx))
         if isinstance(h, HObj):
